@@ -229,7 +229,10 @@ ExpectedDriftShift(pre, post, c, i) ==
 -----------------------------------------------------------------------------
 Viol(pre, c, r, h) ==
   LET post == r.st
-      ok == r.out = "ok"
+      rawOk == r.out = "ok"
+      \* the schedule-level predicates speak of calls executed on a sequence being built; a
+      \* parametrized sequence only stores the call (C08 relates it to the built sequence)
+      ok == rawOk /\ pre.bld /\ post.bld
       i == IF "nm" \in DOMAIN c THEN ChIdx(pre, c.nm) ELSE 0
       isAdd == c.op \in {"add", "eom_add", "dmm_add"} /\ ok
       new == LastOf(post.ch[i].sl)                 \* only used when isAdd
@@ -256,11 +259,28 @@ Viol(pre, c, r, h) ==
   \cup (IF \E j \in 1..Len(post.ch) :
              ChanDurFall(CfgOf(post, j), post.ch[j]) # DeclDurFall(post.ch[j])
         THEN {"C02.DurFall"} ELSE {})
-  \cup (IF ~ok /\ post # pre THEN {"C09.FailUnchanged"} ELSE {})
+  \cup (IF ~rawOk /\ post # pre THEN {"C09.FailUnchanged"} ELSE {})
   \cup (IF c.op \in ReadOnly /\ post # pre THEN {"C09.ReadOnly"} ELSE {})
   \* ---- C13 -------------------------------------------------------------
-  \cup (IF Measured(pre) /\ (Timeline(post) # Timeline(pre) \/ (c.op \in TimelineChanging /\ ok))
+  \cup (IF Measured(pre) /\ (Timeline(post) # Timeline(pre) \/ (c.op \in TimelineChanging /\ rawOk))
         THEN {"C13.FrozenAfterMeasure"} ELSE {})
+  \* once a variable is used the sequence is parametrized: inspection is refused, calls are stored
+  \cup (IF ~pre.bld /\ c.op \in {"getdur", "est"} /\ rawOk
+        THEN {"C13.TemplateRefusesInspection"} ELSE {})
+  \cup (IF ~pre.bld /\ (post.bld \/ Timeline(post) # Timeline(pre)) /\ c.op # "declare"
+        THEN {"C13.TemplateStoresCalls"} ELSE {})
+  \cup (IF IsPar(c) /\ rawOk /\ c.op \notin {"declare", "magfield", "getdur", "est"} /\ post.bld
+        THEN {"C13.VariableParametrizes"} ELSE {})
+  \* a parametrized sequence schedules nothing, so a RuntimeError can only be a mode refusal:
+  \* measured, inspection, or the EOM discipline OF THE CHANNEL OF THE CALL
+  \cup (IF ~post.bld /\ r.out = "RE" /\ c.op # "declare"
+           /\ ~Measured(pre)
+           /\ c.op \notin {"getdur", "est"}
+           /\ ~("nm" \in DOMAIN c /\ DeclaredT(pre, c.nm)
+                /\ LET ine == IF pre.bld THEN (i # 0 /\ InEom(pre.ch[i])) ELSE InEomT(pre, c.nm) IN
+                   \/ (ine /\ c.op \in {"add", "target", "eom_on"})
+                   \/ (~ine /\ c.op \in {"eom_add", "eom_off", "eom_mod"}))
+        THEN {"C13.RefusalHasModeReason"} ELSE {})
   \cup (IF ~DevOf(post).reusable
            /\ \E j, k \in 1..Len(post.ch) : j # k /\ post.ch[j].cid = post.ch[k].cid
         THEN {"C13.OncePerId"} ELSE {})
@@ -269,9 +289,10 @@ Viol(pre, c, r, h) ==
   \cup (IF \E j, k \in 1..Len(post.ch) :
              CfgOf(post, j).basis = "XY" /\ CfgOf(post, k).basis # "XY"
         THEN {"C13.XYExclusive"} ELSE {})
-  \cup (IF i # 0 /\ ok /\
-           \/ (InEom(pre.ch[i]) /\ c.op \in {"add", "target", "eom_on"})
-           \/ (~InEom(pre.ch[i]) /\ c.op \in {"eom_add", "eom_off", "eom_mod"})
+  \cup (IF i # 0 /\ rawOk /\
+           LET ine == IF pre.bld THEN InEom(pre.ch[i]) ELSE InEomT(pre, c.nm) IN
+           \/ (ine /\ c.op \in {"add", "target", "eom_on"})
+           \/ (~ine /\ c.op \in {"eom_add", "eom_off", "eom_mod"})
         THEN {"C13.EomDiscipline"} ELSE {})
   \cup (IF i # 0 /\ ok /\ c.op \in {"add", "eom_add"} /\ Len(pre.ch[i].sl) = 0
         THEN {"C13.TargetBeforePulse"} ELSE {})
@@ -288,7 +309,7 @@ Viol(pre, c, r, h) ==
            /\ \/ new.w[1] # RoundUp(Pulses[c.p].dur, cfgi.clock)
               \/ (Pulses[c.p].dur % cfgi.clock = 0 /\ new.w # PF[pre.dev][pre.ch[i].cid][c.p].w)
         THEN {"C01.OnlyLengthened"} ELSE {})
-  \cup (IF c.op = "add" /\ r.out \in {"VE", "TE"} /\ i # 0 /\ ~Measured(pre)
+  \cup (IF c.op = "add" /\ pre.bld /\ ~IsPar(c) /\ r.out \in {"VE", "TE"} /\ i # 0 /\ ~Measured(pre)
            /\ ~InEom(pre.ch[i]) /\ cfgi.kind # "dmm" /\ c.proto \in Protocols
            /\ Len(pre.ch[i].sl) > 0 /\ Cardinality(RefPhases(pre, bi, lastTg)) = 1
            /\ FactsWithinLimits(cfgi, Pulses[c.p])
@@ -339,7 +360,7 @@ Viol(pre, c, r, h) ==
                   R == RefPhases(pre, bi, lastTg)
               IN ~(\E x \in R : PhEq(new.ph, PMod(prog + x)))
         THEN {"C07.PhaseIsProgPlusRef"} ELSE {})
-  \cup (IF ~cpd /\ Len(post.rf) >= Len(pre.rf)
+  \cup (IF ~cpd /\ pre.bld /\ post.bld /\ Len(post.rf) >= Len(pre.rf)
            /\ \E b \in 1..Len(pre.rf) : \E q \in 1..NQ(pre) :
                  ~PhEq(RefLast(post, b, q), PMod(RefLast(pre, b, q) + Shift(b, q)))
         THEN {"C07.Additive"} ELSE {})
